@@ -95,11 +95,18 @@ inductive FsStep
   | writeMetadata (md : List (String × Nat))
 deriving DecidableEq, Repr
 
+/-- the merged index file is written iff the inputs are indexable -/
+def indexSteps (fs : List (String × StoreFile)) : List FsStep :=
+  match fs with
+  | (_, f0) :: _ => if f0.indexed then [.writeIndex] else []
+  | [] => []
+
+/-- content of `metadata.json`: constituent file names and trajectory counts, in order -/
+def mdOf (fs : List (String × StoreFile)) : List (String × Nat) := fs.map (fun p => (p.1, p.2.items.length))
+
 /-- the file-system steps of a validated merge, in the order the code performs them -/
 def mergeSteps (fs : List (String × StoreFile)) : List FsStep :=
-  [.mkdir] ++ fs.map (fun p => .rename p.1) ++
-  (match fs with | (_, f0) :: _ => if f0.indexed then [.writeIndex] else [] | [] => []) ++
-  [.writeMetadata (fs.map (fun p => (p.1, p.2.items.length)))]
+  [.mkdir] ++ (fs.map (fun p => .rename p.1) ++ (indexSteps fs ++ [.writeMetadata (mdOf fs)]))
 
 /-- one file-system step; `none` = the operating system refuses it (e.g. the file to move is not there) -/
 def applyStep (fsys : FS) : FsStep → Option FS
